@@ -866,6 +866,10 @@ func run(tier, unit string, r *vlib.Rec) {
 		runPV(r, lo, hi)
 		return
 	}
+	if uname == "pervaredit" {
+		runPVEdit(r, lo, hi)
+		return
+	}
 	steps := allSteps()
 	ps := progs(depth(tier))
 	for i := lo; i < hi; i++ {
@@ -892,6 +896,7 @@ func run(tier, unit string, r *vlib.Rec) {
 func plan(tier string) []string {
 	out := vlib.Chunks("programs", int64(len(progs(depth(tier)))), 400)
 	out = append(out, vlib.Chunks("pervar", int64(len(pvPrograms())), 4)...)
+	out = append(out, vlib.Chunks("pervaredit", int64(len(pvPrograms())), 4)...)
 	return append(out, vlib.Chunks("compare", int64(len(cmpCases())), 40)...)
 }
 
@@ -900,6 +905,12 @@ func replay(c json.RawMessage) (string, string) {
 	json.Unmarshal(c, &k)
 	if k.Depth == -2 {
 		return judgePV(k.Prog, strings.Split(k.Doc, ","))
+	}
+	if k.Depth == -3 {
+		p := strings.Split(k.Doc, ",")
+		e1, _ := strconv.Atoi(p[1])
+		e2, _ := strconv.Atoi(p[2])
+		return judgePVEdit(k.Prog, p[0], e1, e2)
 	}
 	if k.Depth == -1 {
 		cs := cmpCases()
@@ -934,7 +945,7 @@ func main() {
 		Run:    run,
 		Replay: replay,
 		Required: func(string) []string {
-			return []string{"outcome:agree", "form:plain", "form:variable", "form:two-variables", "form:unused", "form:combine", "form:combine-length", "last:First", "last:Last", "last:Length", "last:NodesWithTagPath", "last:only=", "last:only!=", "last:only<", "last:only>", "last:only<=", "last:only>=", "last:object", "last:accessor"}
+			return []string{"outcome:agree", "form:plain", "form:variable", "form:two-variables", "form:unused", "form:combine", "form:combine-length", "last:First", "last:Last", "last:Length", "last:NodesWithTagPath", "last:only=", "last:only!=", "last:only<", "last:only>", "last:only<=", "last:only>=", "last:object", "last:accessor", "variables-per-item", "same-document-reuse"}
 		},
 		Deadline: func(tier string) time.Duration {
 			if tier == "thorough" {
